@@ -64,6 +64,13 @@ impl Sandbox {
             match s {
                 Special::Dir => std::fs::create_dir_all(&full)?,
                 Special::Symlink(t) => std::os::unix::fs::symlink(t, &full)?,
+                Special::Fifo => {
+                    use std::os::unix::ffi::OsStrExt;
+                    let c = std::ffi::CString::new(full.as_os_str().as_bytes()).map_err(|_| std::io::Error::other("nul in path"))?;
+                    if unsafe { libc::mkfifo(c.as_ptr(), 0o600) } != 0 {
+                        return Err(std::io::Error::last_os_error());
+                    }
+                }
             }
         }
         Ok(())
@@ -97,10 +104,15 @@ pub struct T2Run {
     pub truncated: bool,
     /// the interposition log (calls under the root), root replaced
     pub log: String,
+    /// killed by the wall-clock watchdog: the process was blocked (it had not used up its CPU limit)
+    pub blocked: bool,
 }
 
 impl T2Run {
     pub fn abnormal(&self) -> Option<String> {
+        if self.blocked {
+            return Some("blocked: made no progress and was killed by the wall-clock watchdog".into());
+        }
         if let Some(s) = self.signal {
             let name = match s {
                 6 => "SIGABRT",
@@ -138,6 +150,8 @@ pub struct RvaCall<'a> {
     pub raw_base: Option<Vec<u8>>,
     /// "full" | "closed": see `T2Spec::stdout_fault`
     pub stdout_fault: Option<&'a str>,
+    /// named pipes of the sandbox (path relative to the root, text): each is fed once
+    pub fifos: Vec<(String, String)>,
 }
 
 const OUT_CAP: usize = 32 << 20;
@@ -244,7 +258,81 @@ pub fn run_rva(c: &RvaCall) -> std::io::Result<T2Run> {
     let se = child.stderr.take();
     let t_out = std::thread::spawn(move || so.map(read_capped).unwrap_or_default());
     let t_err = std::thread::spawn(move || se.map(read_capped).unwrap_or_default());
+    // feeders of named pipes: one delivery each, to the first reader; they give up when the child is gone
+    let done = std::sync::Arc::new(std::sync::atomic::AtomicBool::new(false));
+    let mut feeders = Vec::new();
+    for (rel, text) in &c.fifos {
+        let path = format!("{root}/{rel}");
+        let text = text.clone();
+        let done = done.clone();
+        feeders.push(std::thread::spawn(move || {
+            use std::io::Write;
+            use std::os::unix::fs::OpenOptionsExt;
+            loop {
+                if done.load(Ordering::Relaxed) {
+                    return;
+                }
+                match std::fs::OpenOptions::new().write(true).custom_flags(libc::O_NONBLOCK).open(&path) {
+                    Ok(mut f) => {
+                        // a reader is there: deliver everything (blocking from here on)
+                        unsafe {
+                            use std::os::fd::AsRawFd;
+                            let fl = libc::fcntl(f.as_raw_fd(), libc::F_GETFL);
+                            libc::fcntl(f.as_raw_fd(), libc::F_SETFL, fl & !libc::O_NONBLOCK);
+                        }
+                        let _ = f.write_all(text.as_bytes());
+                        return;
+                    }
+                    Err(_) => std::thread::sleep(std::time::Duration::from_millis(1)),
+                }
+            }
+        }));
+    }
+    // wall-clock watchdog: a process that blocks (instead of spinning) never reaches its CPU limit
+    let pid = child.id() as libc::pid_t;
+    let (wd_tx, wd_rx) = std::sync::mpsc::channel::<()>();
+    let wall = std::time::Duration::from_secs(3 * c.cpu_seconds + 30);
+    let watchdog = std::thread::spawn(move || {
+        // blocked = asleep with its CPU time standing still for 5 s (a busy process runs into its
+        // CPU limit instead); the overall wall limit is a backstop
+        let cpu_and_state = || -> Option<(u64, char)> {
+            let st = std::fs::read_to_string(format!("/proc/{pid}/stat")).ok()?;
+            let rest = &st[st.rfind(')')? + 2..];
+            let f: Vec<&str> = rest.split(' ').collect();
+            Some((f.get(11)?.parse::<u64>().ok()? + f.get(12)?.parse::<u64>().ok()?, f.first()?.chars().next()?))
+        };
+        let start = std::time::Instant::now();
+        let mut last_cpu = 0u64;
+        let mut last_change = start;
+        loop {
+            if wd_rx.recv_timeout(std::time::Duration::from_millis(250)).is_ok() {
+                return false;
+            }
+            let now = std::time::Instant::now();
+            match cpu_and_state() {
+                Some((cpu, state)) => {
+                    if cpu != last_cpu || state == 'R' || state == 'D' {
+                        last_cpu = cpu;
+                        last_change = now;
+                    }
+                }
+                None => last_change = now,
+            }
+            if now - last_change > std::time::Duration::from_secs(5) || now - start > wall {
+                unsafe {
+                    libc::kill(pid, libc::SIGKILL);
+                }
+                return true;
+            }
+        }
+    });
     let status = child.wait()?;
+    let _ = wd_tx.send(());
+    let blocked = watchdog.join().unwrap_or(false);
+    done.store(true, Ordering::Relaxed);
+    for f in feeders {
+        let _ = f.join();
+    }
     let (out, tr1) = t_out.join().unwrap_or_default();
     let (err, tr2) = t_err.join().unwrap_or_default();
     let log = std::fs::read_to_string(&log_path).unwrap_or_default();
@@ -257,5 +345,6 @@ pub fn run_rva(c: &RvaCall) -> std::io::Result<T2Run> {
         stderr: norm(&err),
         truncated: tr1 || tr2,
         log: log.replace(&root, "<ROOT>"),
+        blocked,
     })
 }
